@@ -102,7 +102,41 @@ def check(ctx: Ctx) -> None:
     # signs/parts of the model impedance assembly
     ctx.instance("R13.1", "model impedance: real mode adds R_inf and keeps Im Z; imaginary mode returns −Σ as the imaginary part")
     t = norm(gm.node)
-    if "Z_re_im = R_pol * Z_re_im" in t and "zip(Z.real, -Z_re_im)" in t and "zip(Z_re_im + R_inf, Z.imag)" in t:
+
+    def complex_parts(imag: bool):
+        """(real part, imaginary part) of the value _generate_model_impedance returns in one mode, whatever way the complex
+        array is put together: complex(*pair) over zip(re, im), re + 1j*im, or X.real = re; X.imag = im."""
+        parts: Dict[str, Dict[str, str]] = {}
+        result = []
+
+        def walk(stmts) -> bool:
+            for st in stmts:
+                if isinstance(st, ast.If) and norm(st.test) in ("is_imaginary", "not is_imaginary"):
+                    take = st.body if (norm(st.test) == "is_imaginary") == imag else st.orelse
+                    if walk(take):
+                        return True
+                elif isinstance(st, ast.Assign) and isinstance(st.targets[0], ast.Attribute) and st.targets[0].attr in ("real", "imag") and isinstance(st.targets[0].value, ast.Name):
+                    parts.setdefault(st.targets[0].value.id, {})[st.targets[0].attr] = norm(st.value)
+                elif isinstance(st, ast.Return) and st.value is not None:
+                    v = st.value
+                    if isinstance(v, ast.Name) and v.id in parts:
+                        result.append((parts[v.id].get("real"), parts[v.id].get("imag")))
+                    else:
+                        z = [c for c in calls_in(v) if dotted(c.func) == "zip" and len(c.args) == 2]
+                        if z and "complex(*" in norm(v):
+                            result.append((norm(z[0].args[0]), norm(z[0].args[1])))
+                        elif isinstance(v, ast.BinOp) and isinstance(v.op, ast.Add) and isinstance(v.right, ast.BinOp) and norm(v.right.left) == "1j":
+                            result.append((norm(v.left), norm(v.right.right)))
+                        else:
+                            result.append((None, norm(v)))
+                    return True
+            return False
+        walk(gm.node.body)
+        return result[0] if result else (None, None)
+    scaled = "Z_re_im = R_pol * Z_re_im" in t or "Z_re_im *= R_pol" in t or "Z_re_im = Z_re_im * R_pol" in t
+    pi_, pr_ = complex_parts(True), complex_parts(False)
+    if scaled and tuple(x.replace(" ", "") if x else x for x in pi_) == ("Z.real", "-Z_re_im") \
+            and tuple(x.replace(" ", "") if x else x for x in pr_) in (("Z_re_im+R_inf", "Z.imag"), ("R_inf+Z_re_im", "Z.imag")):
         ctx.ok()
     else:
         ctx.violation("R13.1", "_generate_model_impedance:assembly", NN, gm.node, "the model impedance must be R_inf + R_pol·Σ (real mode) / −R_pol·Σ (imaginary mode)")
